@@ -5,6 +5,7 @@ use xvcommon::{Args, Report};
 mod alloc;
 mod e_chunker;
 mod e_deduper;
+mod e_mgrconc;
 mod e_hash;
 mod e_shard;
 mod e_xorb;
@@ -31,6 +32,7 @@ fn main() {
         "shard_consolidate" => e_shard::run_consolidate(&args, &mut rep),
         "shard_keyed" => e_shard::run_keyed(&args, &mut rep),
         "shard_expiry" => e_shard::run_expiry(&args, &mut rep),
+        "shard_mgr_conc" => e_mgrconc::run(&args, &mut rep),
         other => {
             eprintln!("unknown engine {other:?}");
             std::process::exit(2);
